@@ -7,7 +7,44 @@ from pathlib import Path
 VERIF = Path(__file__).resolve().parent.parent
 ALL = [f"C{i:02d}" for i in range(1, 21)]
 
+ITER = "TLA+ spec IterProgram (TLC exhaustive: leaf contents x call histories) + replay of every TLC state into the real iteration engine + real trees judged by TLC (TraceTree)"
 CHECKS = {
+    "C01": dict(
+        technique=ITER,
+        text="TLC enumerates every program of <=2 (quick) / <=3 (thorough) factory calls from a ~45-entry menu (calculations, all projections, 12-16 predicates, deduplication, 7-11 sort-term lists, 8-11 slices, chain with a second leaf and with itself, materialization, iteration->iteration transfer) over 14 (quick) / all 85 (thorough) leaf contents incl. zero-column and key/non-key schemas and four leaf-bound declarations; it maintains the reference rows with the naive semantics only and proves on the code-shaped rewrite rules and execution model that execution returns exactly those rows. Every TLC state is replayed through the real public API and executed by the real iteration engine (with RowSequence and with lazy counting payloads) and compared with TLC's rows as lists; the real tree is projected and its denotation recomputed by TLC.",
+        design_ref="§6 C01",
+        note="bounded: values 0..1, <=3 rows per leaf, depth <=3; tag reuse and non-key columns without their keys are outside the documented contract and not generated; zero drift between model and code is reported in evidence",
+    ),
+    "C06": dict(
+        technique=ITER,
+        text="In every IterProgram state TLC checks that min_rows <= |Den(n)| <= max_rows, row keys == columns and the join-identity/trivial flags agree with content for EVERY node of the model tree, with leaf bounds declared exact, loose, zero-lower and unbounded; the replay executes every node of the REAL tree and compares its real row count and keys with the real relation's public min_rows/max_rows/columns/is_trivial/is_join_identity, and TLC re-checks the same on the projected real tree (TraceTree clause meta).",
+        design_ref="§6 C06",
+        note="iteration-engine trees in this round; SQL and multi-engine trees are added with the SqlProgram/MultiEngine specs",
+    ),
+    "C14": dict(
+        technique=ITER,
+        text="WellFormed(tree) is an invariant of IterProgram (TLC), the documented no-op calls are checked to return the identical object in the replay (action property NoOpIdentity in the model), and every real tree is judged WellFormed by TLC (TraceTree clause wf).",
+        design_ref="§6 C14",
+        note="iteration engines (two) in this round",
+    ),
+    "C16": dict(
+        technique=ITER,
+        text="Diag (code-shaped model of Diagnostics.run) is checked by TLC in every IterProgram state: doomed => no rows; with a truthful executor doomed <=> no rows; doomed => message. The replay runs the real Diagnostics.run without and with an executor that really executes, and judges the verdicts against TLC's reference rows.",
+        design_ref="§6 C16",
+        note="menu contains trivially false predicates, zero-limit slices, empty leaves with non-zero declared maximum, zero-column relations",
+    ),
+    "C18": dict(
+        technique=ITER,
+        text="The laziness model Cost(tree) (payload iterations started by execute() and per iteration of the result) is checked by TLC against the documented promise (LazyPromise) in every state; the replay uses counting leaf payloads and compares real counts: lazy-only trees start nothing at execute() and at most one iteration per leaf occurrence per pass, eager operations never exceed the model, two passes give identical rows.",
+        design_ref="§6 C18",
+        note="counts below the model (early termination of slices) are counted as drift, not violations",
+    ),
+    "C20": dict(
+        technique=ITER,
+        text="For every reachable IterProgram state TLC lists the ill-formed requests of a 24-entry menu (missing columns in calculation/projection/selection/sort, existing tag, column-free calculation, negative/reversed/stepped slices, chain with different columns or engine, engine-restricted functions) with the exception class the model predicts (invariant RejectsAll: every ill-formed request is rejected by the model); the replay issues each against the real relation, demands the documented class and an unchanged relation (repr/str/columns/bounds/hash).",
+        design_ref="§6 C20",
+        note="default preferred-engine options in this round; the option combinations are added with the MultiEngine spec",
+    ),
     "C04": dict(
         technique="TLA+ spec OpPairs (TLC exhaustive over operation pairs x targets) + real commute() answers judged by TLC (TracePairs)",
         text="TLC enumerates every ordered pair (existing, new) over the operation menus (calculation, all projections, 10 predicates, deduplication, 9+21 sort-term lists, 7+45 slices) and proves the commutation law on the code-shaped Commute rules for all 85 targets (<=3 rows over a,b in 0..1); for every pair the REAL new.commute(existing) is called and its answer (first, second, done) is handed back to TLC, which interprets it with the reference semantics over every target: a sound answer that differs from the model passes (reported as drift), an unsound one is a violation. Companion configurations re-derive findings F2 (open), F10 and F6 (fixed) as TLC counterexamples.",
